@@ -57,6 +57,7 @@ type c19Case struct {
 	Reply   bool
 	Code    string // reply status code (default 200)
 	Var     int    // variant of the fingerprinted strings (Via branch / Call-ID / From tag with an all-zero class signature)
+	CSeqM   string `json:",omitempty"` // method token written in the CSeq value when it is not the request method (a value of a header, not the method)
 	PrevCut int    `json:",omitempty"` // > 0: the same object (and header array) first got that many bytes of c19PrevMsg, was abandoned and reset
 	PrevOp  string `json:",omitempty"` // "Reset" or "Init" (with the same header array)
 }
@@ -97,6 +98,9 @@ func (cs *c19Case) render() (msg []byte, nh int, want []sipsp.HdrSigId, cid, via
 			name = d.Compact
 		}
 		val := strings.ReplaceAll(d.Val, "%M", m)
+		if cs.CSeqM != "" && d.Type == sipsp.HdrCSeq {
+			val = strings.ReplaceAll(d.Val, "%M", cs.CSeqM)
+		}
 		if alt, ok := sigValVariants[d.Type]; ok && cs.Var > 0 {
 			val = alt[(cs.Var-1)%len(alt)]
 		}
@@ -253,7 +257,7 @@ func evalC19(cs *c19Case) (vs []*Violation) {
 	}
 	// metamorphic: equal to the base variant (no fillers, no repetition, ample capacity, one shot)
 	base := *cs
-	base.Fillers, base.Repeat, base.Cap, base.Cut, base.PrevCut = nil, -1, 40, -1, 0
+	base.Fillers, base.Repeat, base.Cap, base.Cut, base.PrevCut, base.CSeqM = nil, -1, 40, -1, 0, ""
 	noContact := false
 	if cs.Method != "INVITE" {
 		// in a non-INVITE request Contact is one of the "other" headers: the base variant has none
@@ -276,6 +280,8 @@ func evalC19(cs *c19Case) (vs []*Violation) {
 	if bse == sipsp.ErrHdrOk && bsig != sig {
 		cl := ""
 		switch {
+		case cs.CSeqM != "":
+			cl = "cseq-value-names-another-method"
 		case noContact && cs.PrevCut == 0 && cs.Repeat < 0 && len(cs.Fillers) == 0 && cs.Cut < 0:
 			cl = "contact-in-non-invite"
 		case cs.PrevCut > 0:
@@ -429,6 +435,14 @@ func checkC19(r *Run) {
 						v2.Fillers[g] += 100
 						v2.Fillers[(g+1)%(len(ord)+1)] = 1 + (g+3)%len(fillerLines)
 						run(c, &v2)
+					}
+					// the CSeq value names another method (known or not): a header value, the method is the request line's
+					for _, om := range []string{"OPTIONS", "INVITE", "REGISTER", "FOO"} {
+						if om != meth {
+							v := base
+							v.CSeqM = om
+							run(c, &v)
+						}
 					}
 					// later repetition of each fingerprinted header
 					for hi, h := range ord {
